@@ -90,8 +90,19 @@ fn split_top(s: &str) -> Vec<String> {
 }
 
 impl Grammar {
+    /// the reference grammar (frozen DSL read by the independent reader): what a conforming reader accepts, whatever the
+    /// code under test says today
+    pub fn load_reference() -> Result<Grammar, String> {
+        Self::load_path("work/translate/grammar_ref.txt")
+    }
+
     pub fn load() -> Result<Grammar, String> {
         let path = std::env::var("VERIF_GRAMMAR").unwrap_or_else(|_| "work/translate/grammar.txt".to_string());
+        Self::load_path(&path)
+    }
+
+    pub fn load_path(path: &str) -> Result<Grammar, String> {
+        let path = path.to_string();
         let text = std::fs::read_to_string(&path).map_err(|e| format!("{path}: {e}"))?;
         let mut types = HashMap::new();
         let mut fields = HashMap::new();
